@@ -528,7 +528,7 @@ func init() {
 			{Name: "STICKY-ERR", What: "Reader.Read/ReadByte return the recorded error at once and do not touch it – also io.EOF in Blocked mode: the end of the data is final until a Seek (added after fifth-round seed C02-f)", Floor: 2, Run: ruleReaderStickyErr},
 			{Name: "POOL-BARE", What: "wait() takes the block out of the decompressor on every path, failed reads included, and only bare decompressors go back to the pool: otherwise the reader and a decompressor share a block (shared with C01/C09; under C02 since fifth-round seed C02-e)", Floor: 4, Run: rulePoolBare},
 			{Name: "PATH-BLOCKSEEK", What: "(*block).seek positions the buffer on every path and records the in-block offset on the success edge only (added after a blind second seed round)", Floor: 2, Run: ruleBlockSeek},
-			{Name: "CUR-SEEKOFF", What: "countReader.seek records the new offset only after the underlying Seek succeeded (added after a blind second seed round)", Floor: 1, Run: ruleSeekOff},
+			{Name: "CUR-SEEKOFF", What: "countReader.seek records the new offset only after the underlying Seek succeeded, and discards what it had buffered only there too (added after a blind second seed round; buffer clause after tenth-round seed C09-l)", Floor: 3, Run: ruleSeekOff},
 			{Name: "BASE-DROPS-DATA", What: "a block given a new base has no data until a read into it succeeded (setBase clears the buffer; hasData tests it)", Floor: 2, Run: ruleBaseDropsData},
 			{Name: "BIT-BSIZE", What: "expectedMemberSize, from which the next block's offset is computed, is the inverse of the writer's BSIZE for every member size up to 0x10000 (shared with C01/C08; under C02 since seventh-round seed C02-h: the +1 done in sixteen bits makes the largest legal member unreadable and unseekable)", Floor: 2, Run: ruleBSize},
 			{Name: "WIDEN-FIRST", What: "package bgzf: a size taken from a member header is widened before it enters arithmetic (shared with C11)", Floor: 1, Run: ruleWidenFirst([]string{"bgzf"}, "bgzf", 5)},
